@@ -158,7 +158,8 @@ type openSet struct {
 	Label string     `json:"label"`
 	Polys []polySpec `json:"polys"`
 	Open  []opening  `json:"open"`
-	Shape string     `json:"shape"` // generator class (informational)
+	Shape string     `json:"shape"`           // generator class (informational)
+	Noise uint64     `json:"noise,omitempty"` // seed of unrelated API calls executed before / in between (0 = quiet process)
 }
 
 func genLabel(t *rapid.T) string {
@@ -205,7 +206,7 @@ func genOpenSet(t *rapid.T, maxN int, numCPU int) openSet {
 	base := rapid.IntRange(0, 255).Draw(t, "z_base")
 	stride := rapid.SampledFrom([]int{1, 2, 3, 7, 16, 37, 128, 255}).Draw(t, "z_stride")
 	npolys := rapid.IntRange(1, minInt(n, 6)).Draw(t, "npolys")
-	os := openSet{Label: genLabel(t), Shape: shape}
+	os := openSet{Label: genLabel(t), Shape: shape, Noise: noiseSeedFrom(rapid.Uint64().Draw(t, "noise"))}
 	for i := 0; i < npolys; i++ {
 		os.Polys = append(os.Polys, genPoly(t, fmt.Sprintf("p%d", i)))
 	}
